@@ -5,10 +5,12 @@
    keeps (with its internal ranged selectors) and what iterating over it yields in stored
    order; the model compresses the latter itself (Model/Compress.v) and expands the former
    itself.  Those two sub-cases tie the compression model to the code: the reported value is
-   echoed as the specification, so a difference shows as a divergence of the model. *)
+   echoed as the specification, so a difference shows as a divergence of the model.  A third
+   sub-case: the members of a Multi/Composite selector are stored in non-decreasing order of the
+   model's comparator (Model/SubOrder.v). *)
 From Coq Require Import List ZArith Bool Arith.
 Import ListNotations.
-From Stam Require Import Base.Sx Model.Offset Model.Store Model.StoreObs Model.Compress Spec.StoreSpec Run.StoreRun.
+From Stam Require Import Base.Sx Model.Offset Model.Store Model.StoreObs Model.Compress Model.SubOrder Spec.StoreSpec Run.StoreRun.
 
 Definition csel_of_sx (x : sx) : csel :=
   let n i := sx_nat (sx_nth i x) in
@@ -42,8 +44,10 @@ Definition form_cases (s : store) (f : sx) : list sx :=
       let expanded := sx_nth 2 e in
       let cs := map csel_of_sx (sx_list stored) in
       let lfs := leaves_of (map csel_of_sx (sx_list expanded)) in
+      let kind := sx_nat (sx_nth 3 e) in
       [triple (L (map sx_of_csel (compress (whole s) lfs))) stored 0;
-       triple (L (map (fun lf => of_nats (leaf_key lf)) (expand (own_text s) cs))) expanded 0])
+       triple (L (map (fun lf => of_nats (leaf_key lf)) (expand (own_text s) cs))) expanded 0;
+       triple (of_bool (Nat.eqb kind 3 || sortedb (leaf_cmp s) lfs)) (A 1) 0])
     (sx_list f).
 
 Fixpoint run_ops (s : store) (ops : list op) (forms : list sx) : list sx :=
